@@ -161,10 +161,16 @@ Definition agree_distributor (shape : list Z) (thr : Z) (merge : bool)
   && views_eqb (param_blocks st) impl_param && views_eqb (block_gradients st thr) impl_grad.
 
 (* after update_params on a zero parameter, with block k's direction = base_k + 0,1,2,... in the block's
-   own row-major order (base_k given), `storage` is the parameter read in ITS row-major order *)
+   own row-major order (base_k given), `storage` is the parameter read in ITS row-major order.
+   update_okb decides, for a given list of blocks, that the storage holds exactly what adding direction k
+   to the elements addressed by block k produces. *)
+Definition update_dirs (bl : list view) (bases : list Z) : list (list Z) :=
+  map (fun p => map (Z.add (snd p)) (Zrange (prodl (vsizes (fst p))))) (combine bl bases).
+
+Definition update_okb (bl : list view) (bases : list Z) (storage : list Z) : bool :=
+  let upd := scatter bl (update_dirs bl bases) in
+  (length upd =? length storage)%nat && (length bl =? length bases)%nat
+  && forallb (fun ov => (0 <=? fst ov) && (nth (Z.to_nat (fst ov)) storage (-1) =? snd ov)) upd.
+
 Definition agree_update (shape : list Z) (thr : Z) (merge : bool) (bases : list Z) (storage : list Z) : bool :=
-  let bl := blocks shape thr merge in
-  let dirs := map (fun p => map (Z.add (snd p)) (Zrange (prodl (vsizes (fst p))))) (combine bl bases) in
-  let upd := scatter bl dirs in
-  (Z.of_nat (length upd) =? Z.of_nat (length storage)) && (length bl =? length bases)%nat
-  && forallb (fun ov => nth (Z.to_nat (fst ov)) storage (-1) =? snd ov) upd.
+  update_okb (blocks shape thr merge) bases storage.
